@@ -13,6 +13,7 @@ pub fn document(
     document: dom::XmlDocument,
     context: &mut model::Context,
 ) -> error::Result<model::Value> {
+    context.clear_predicates();
     eval_expr(expr, document.as_node(), context)
 }
 
@@ -504,11 +505,37 @@ fn eval_predicate(
     node: dom::XmlNode,
     context: &mut model::Context,
 ) -> error::Result<bool> {
-    let value = eval_expr(predicate, node, context)?;
-    match value {
-        model::Value::Number(v) => Ok(v == context.get_position() as f64),
-        _ => Ok(bool::try_from(&value)?),
+    // A predicate is a function of the context node, position and size: the answer is kept for
+    // the rest of the query, otherwise predicates nested in predicates (`//a[//a[//a[...]]]`) are
+    // evaluated again for every candidate of every enclosing level. A node without an order key
+    // of its own (key 0, namespace nodes) is not told apart by its key and is evaluated anew.
+    let key = match node {
+        dom::XmlNode::Namespace(_) => None,
+        _ => match node.order() {
+            0 => None,
+            order => Some((
+                predicate as *const expr::Expr as usize,
+                order,
+                context.get_position(),
+                context.get_size(),
+            )),
+        },
+    };
+    if let Some(selected) = key.as_ref().and_then(|k| context.predicate(k)) {
+        return Ok(selected);
     }
+
+    let value = eval_expr(predicate, node, context)?;
+    let selected = match value {
+        model::Value::Number(v) => v == context.get_position() as f64,
+        _ => bool::try_from(&value)?,
+    };
+
+    if let Some(key) = key {
+        context.set_predicate(key, selected);
+    }
+
+    Ok(selected)
 }
 
 fn eval_func_expr(
